@@ -299,6 +299,13 @@ def run_case(case):
         if case.get("so") and a > 1:
             buf.free(0, a // 2)
         fill(buf, before)
+        v0 = None
+        if cap > 0 and case.get("extra", 0) % 2 == 0:
+            # a typed view handed out BEFORE the growth (kept alive by the caller)
+            v0 = sut(buf.to_nplike, 0, "uint8", (cap,))
+            if is_raised(v0):
+                return fail("raised", f"to_nplike(0, uint8, ({cap},)): {v0}", f"grow_view|{v0.key}", labels)
+            labels.add("grow:view_taken_before")
         r = sut(buf.grow, n)
         if is_raised(r):
             return fail("raised", f"grow({n}): {r}", f"grow|{r.key}", labels)
@@ -308,6 +315,24 @@ def run_case(case):
         if got != before:
             pos = [i for i in range(cap) if got[i] != before[i]]
             return fail("bytes_lost_on_growth", f"grow({n}) with {a} bytes allocated{' and a freed hole' if case.get('so') else ''}: old bytes at {pos[:8]} not carried over", "grow", labels)
+        # views handed out after the growth cover the bytes of the NEW storage, both ways
+        tot = cap + n
+        if tot > 0:
+            v1 = sut(buf.to_nplike, 0, "uint8", (tot,))
+            if is_raised(v1):
+                return fail("raised", f"after grow({n}): to_nplike(0, uint8, ({tot},)): {v1}", f"grow_view|{v1.key}", labels)
+            if v1.tobytes() != raw(buf)[:tot]:
+                return fail("view_value", f"after grow({n}){' (a view was taken before)' if v0 is not None else ''}: the view of [0,{tot}) does not show the buffer's bytes", "grow", labels)
+            k = (o * 7 + 3) % tot
+            newb = (raw(buf)[k] + 1) % 256
+            v1[k] = newb
+            if raw(buf)[k] != newb:
+                return fail("view_write_lost", f"after grow({n}){' (a view was taken before)' if v0 is not None else ''}: a write through the view at byte {k} is not in the buffer", "grow", labels)
+            w = sut(buf.update_from_buffer, k, bytes([(newb + 1) % 256]))
+            if is_raised(w):
+                return fail("raised", f"after grow({n}): update_from_buffer({k}, 1 byte): {w}", f"grow|{w.key}", labels)
+            if int(v1[k]) != (newb + 1) % 256:
+                return fail("view_not_aliasing", f"after grow({n}){' (a view was taken before)' if v0 is not None else ''}: a byte written through update_from_buffer at {k} does not show in the view", "grow", labels)
         return Outcome(True, labels=sorted(labels), nontrivial=cap > 0 and n > 0)
     if prim == "scalar":
         import xobjects as xo
@@ -483,7 +508,8 @@ def iter_job_cases(job):
             elif fam == "grow":
                 if n <= 9:
                     for hole in (0, 1):
-                        yield dict(base, prim="grow", so=hole)
+                        for ex in (0, 1):
+                            yield dict(base, prim="grow", so=hole, extra=ex)
             elif fam == "scalar":
                 if n == 0:
                     for dt in DTYPES:
